@@ -582,7 +582,12 @@ def corpus():
           'tree': nary('plus', [leaf('constant', [1.0]), {'op': 'range', 'marker': '>=', 'start': 2.0, 'a': nary('plus', [leaf('constant', [10.0]), leaf('polynomial', [0.0, 100.0])])}])}
     c7 = {'kind': 'sem', 'section': 'EAM-Density', 'r': 1.5, 'ranged': True,
           'tree': nary('product', [leaf('constant', [3.0]), {'op': 'range', 'marker': '>', 'start': 1.5, 'a': nary('product', [leaf('constant', [2.0]), leaf('polynomial', [1.0, 1.0])])}, leaf('bornmayer', [2.0, 0.5])])}
-    return [c1, c2, c3, c4, c5, c6, c7] + [{'kind': 'text', 'text': t, 'wellformed': None} for t in texts]
+    # two constants of one sum / product restricted to the same start, one inclusively and one exclusively: AT the start only the inclusive one counts
+    c8 = {'kind': 'sem', 'section': 'Pair', 'r': 1.0, 'ranged': True,
+          'tree': nary('plus', [leaf('bornmayer', [1000.0, 0.3]), {'op': 'range', 'marker': '>=', 'start': 1.0, 'a': leaf('constant', [2.0])}, {'op': 'range', 'marker': '>', 'start': 1.0, 'a': leaf('constant', [5.0])}])}
+    c9 = {'kind': 'sem', 'section': 'Pair', 'r': 1.5, 'ranged': True,
+          'tree': nary('product', [{'op': 'range', 'marker': '>=', 'start': 1.5, 'a': leaf('constant', [3.0])}, leaf('polynomial', [1.0, 2.0]), {'op': 'range', 'marker': '>', 'start': 1.5, 'a': leaf('constant', [0.5])}])}
+    return [c1, c2, c3, c4, c5, c6, c7, c8, c9] + [{'kind': 'text', 'text': t, 'wellformed': None} for t in texts]
 
 def correspond(ctx):
     g = ctx['rng']
